@@ -131,6 +131,17 @@ class VCGen(SpecMixin, CallMixin, StmtMixin, ExprMixin, Engine):
         return s
 
     def check_post(self, c, fi, st, val, entry):
+        from . import rely as _rely
+        if _rely.is_pending(val):
+            # a future handed to the caller un-awaited: its effects may have started
+            rs = [r for r in _rely.drop_pending(self, st, val, fi.node) if r.exc is None]
+            if len(rs) != 1:
+                self.oos('escaping future with several outcomes', fi.node)
+            st = rs[0].st
+            fid = z3.Int(fresh_name('future'))
+            f = z3.Function('u_inst_Future', z3.IntSort(), z3.BoolSort())
+            st = st.assume(f(fid))
+            val = SV(VAL, Val.VRef(fid))
         if c.ret is not None and c.ret != NONE:
             cv = self.coerce(val, c.ret)
             if cv is None and c.ret == VAL:
